@@ -199,11 +199,12 @@ Qed.
 (* ---- async_sync_agree, partial: the asynchronous and the synchronous polarized mode print the same
    multiset.  REMAINING HYPOTHESES: the three hypotheses of `determinism_partial` for the
    ASYNCHRONOUS mode only (invariant preserved; any two distinct enabled asynchronous choices
-   independent; no run-time error).  Nothing is assumed about the synchronous mode. *)
+   independent; errors are not cured by other steps — e.g. because there are none, C01).  Nothing is assumed about the synchronous mode. *)
 Theorem async_sync_agree_partial (D : tenv) (F : list fundef) (I : config -> Prop) :
   (forall c ch c', I c -> step Async D F c ch = SStep c' -> I c') ->
   (forall c a b c1 c2, I c -> a ≠ b -> step Async D F c a = SStep c1 -> step Async D F c b = SStep c2 -> indep Async D c a b) ->
-  (forall c ch who e, I c -> step Async D F c ch ≠ SError who e) ->
+  (forall c a b w e c', I c -> step Async D F c a = SError w e -> step Async D F c b = SStep c' ->
+     exists w' e', step Async D F c' a = SError w' e') ->
   forall c pick1 f1 t1,
     I c -> ns_ok c -> bufs_empty c -> exec_run f1 pick1 Sync D F c = RQuiescent t1 ->
     exists n, forall pick2 f2, (n < f2)%nat ->
@@ -213,7 +214,7 @@ Proof.
   apply exec_run_sound in Hr as (n & _ & Hs & Hq).
   destruct (sync_run_matched D F n c t1 Hb Hs Hq) as (n' & t' & Ha & Hq' & Ho).
   exists n'. intros pick2 f2 Hf.
-  destruct (exec_run_complete Async D F I H1 H2 H3 pick2 f2 n' c t' (conj HI Hns) Ha (quiescent_terminal _ _ _ _ Hq') Hf)
+  destruct (exec_run_complete Async D F I H1 H2 H3 pick2 f2 n' c t' (conj HI Hns) Ha Hq' Hf)
     as (t2 & Hr2 & He).
   exists t2. split; [done|]. rewrite (cfg_equiv_labels _ _ He). unfold labels. by rewrite Ho.
 Qed.
@@ -221,7 +222,8 @@ Qed.
 Corollary async_sync_agree_partial_init (D : tenv) (F : list fundef) (I : config -> Prop) :
   (forall c ch c', I c -> step Async D F c ch = SStep c' -> I c') ->
   (forall c a b c1 c2, I c -> a ≠ b -> step Async D F c a = SStep c1 -> step Async D F c b = SStep c2 -> indep Async D c a b) ->
-  (forall c ch who e, I c -> step Async D F c ch ≠ SError who e) ->
+  (forall c a b w e c', I c -> step Async D F c a = SError w e -> step Async D F c b = SStep c' ->
+     exists w' e', step Async D F c' a = SError w' e') ->
   forall p pick1 f1 t1,
     I (init_config p) -> exec_run f1 pick1 Sync D F (init_config p) = RQuiescent t1 ->
     exists n, forall pick2 f2, (n < f2)%nat ->
